@@ -18,38 +18,101 @@ def driver(scenarios, tag):
     return vf.run_driver(PID, PKG, TEST, scenarios, tag, env=env, timeout=1500)
 
 
+def _join(s, f):
+    return ">".join(str(f(d)) for d in s["duties"])
+
+
 def sig_of(s):
-    return {"version": s["proposal"]["version"], "blinded": s["proposal"]["blinded"], "dslot": s["proposal"]["dslot"],
-            "graffiti": s["graffiti"], "auction": s["auction"]["kind"], "unblind_all": s["cfg"]["unblindAll"],
-            "sign": s["sign"], "submit": s["submit"], "relays": ",".join(s["relays"])}
+    # one value per duty of the history, joined with ">"
+    return {"duties": len(s["duties"]), "nodeclient_provider": s["cfg"]["nodeclient"],
+            "version": _join(s, lambda d: d["proposal"]["version"]), "blinded": _join(s, lambda d: d["proposal"]["blinded"]),
+            "dslot": _join(s, lambda d: d["proposal"]["dslot"]), "graffiti": _join(s, lambda d: d["graffiti"]),
+            "nodeclient": _join(s, lambda d: d["nodeclient"]), "auction": _join(s, lambda d: d["auction"]["kind"]),
+            "unblind_all": s["cfg"]["unblindAll"], "sign": _join(s, lambda d: d["sign"]),
+            "submit": _join(s, lambda d: d["submit"]), "relays": _join(s, lambda d: ",".join(d["relays"]))}
+
+
+def _split(rows):
+    """The rows of a history, duty by duty."""
+    per, cur = [], []
+    for r in rows:
+        if r.get("ev") == "NextDuty":
+            per.append(cur)
+            cur = []
+        cur.append(r)
+    per.append(cur)
+    return per
 
 
 def nontrivial(s, rows):
-    # exercises an antecedent of the property: something was signed (SignedIsSelected, SubmittedIntact,
-    # NothingWithoutUnblind), or a proposal was obtained for another slot (must not be signed), or the
-    # graffiti lookup / the auction failed (DegradesNotSkips)
-    evs = {r.get("ev") for r in rows}
-    if "Sign" in evs:
-        return True
-    if s["proposal"]["out"] == "ok" and s["proposal"]["dslot"] != 0 and "Proposal" in evs:
-        return True
-    return (s["graffiti"] == "err" and "Graffiti" in evs) or (s["auction"]["kind"] == "err" and "Auction" in evs)
+    # exercises an antecedent of the property in some duty of the history: something was signed
+    # (SignedIsSelected, SubmittedIntact, NothingWithoutUnblind), or a proposal was obtained for another slot
+    # (must not be signed), or the graffiti lookup / the node client lookup / the auction failed
+    # (DegradesNotSkips); for a later duty also: an earlier duty of the instance went wrong (history rule)
+    per = _split(rows)
+    for i, d in enumerate(s["duties"]):
+        if i >= len(per):
+            break
+        evs = {r.get("ev") for r in per[i]}
+        if "Sign" in evs:
+            return True
+        if d["proposal"]["out"] == "ok" and d["proposal"]["dslot"] != 0 and "Proposal" in evs:
+            return True
+        if (d["graffiti"] == "err" and "Graffiti" in evs) or (d["nodeclient"] == "err" and "NodeClient" in evs) \
+                or (d["auction"]["kind"] == "err" and "Auction" in evs):
+            return True
+    return False
+
+
+def _tags(d):
+    """What goes wrong for a duty, as the scenario scripts it (FailureTags of Proposer.tla)."""
+    t = []
+    if d["accounts"] in ("err", "empty") or d["randao"] == "err":
+        t.append("prepare")
+    if d["graffiti"] == "err":
+        t.append("graffiti")
+    if d["nodeclient"] == "err":
+        t.append("nodeclient")
+    if d["auction"]["kind"] == "err":
+        t.append("auction")
+    p = d["proposal"]
+    if p["out"] == "err":
+        t.append("fetch")
+    if p["out"] == "ok" and p["dslot"] != 0:
+        t.append("wrongslot")
+    if d["sign"] == "err":
+        t.append("sign")
+    if d["sign"] == "ok" and p["blinded"] and not any(x in ("full", "errfull") for x in d["relays"]):
+        t.append("unblind")
+    if d["submit"] == "err":
+        t.append("submit")
+    return tuple(t)
+
+
+def _dstratum(d):
+    p = d["proposal"]
+    delivering = sum(1 for x in d["relays"] if x in ("full", "errfull"))
+    return (p["out"], p["version"], p["blinded"], p["dslot"], d["sign"], d["accounts"], d["randao"], min(delivering, 2))
 
 
 def _stratum(s):
-    p = s["proposal"]
-    delivering = sum(1 for x in s["relays"] if x in ("full", "errfull"))
-    return (p["out"], p["version"], p["blinded"], p["dslot"], s["sign"], s["accounts"], s["randao"], min(delivering, 2))
+    if len(s["duties"]) == 1:
+        return _dstratum(s["duties"][0])
+    # histories: what went wrong for each duty but the last x how the last duty obtains its graffiti and block
+    last = s["duties"][-1]
+    return (s["cfg"]["nodeclient"], tuple(_tags(d) for d in s["duties"][:-1]),
+            (last["graffiti"], last["nodeclient"], last["proposal"]["blinded"]))
 
 
 def _sample(rnd, scs, n):
-    """Seeded sample that keeps every stratum (version x form x slot offset x ...) represented."""
+    """Seeded sample that keeps every stratum represented as far as n allows (strata in seeded order)."""
     if n >= len(scs):
         return list(scs)
     groups = {}
     for s in scs:
         groups.setdefault(_stratum(s), []).append(s)
     keys = sorted(groups, key=repr)
+    rnd.shuffle(keys)
     for k in keys:
         rnd.shuffle(groups[k])
     res = []
@@ -64,34 +127,53 @@ def _sample(rnd, scs, n):
     return res
 
 
+def _widen(rnd, s, sc):
+    """Widen the values the model keeps small: slots (and the gaps between the duties of a history), validator
+    indices, token salt; relays are renumbered."""
+    perm = [0, 1, 2]
+    rnd.shuffle(perm)
+    base = rnd.randrange(64, 20000000)
+    gap = rnd.choice([1, 1, 2, 32, rnd.randrange(3, 300)])
+    first = s["duties"][0]["slot"]
+    v0 = rnd.randrange(1, 1500000)
+    duties = []
+    for d in s["duties"]:
+        d = dict(d)
+        d["slot"] = base + (d["slot"] - first) * gap
+        d["v"] = v0 if rnd.random() < 0.5 else rnd.randrange(1, 1500000)
+        relays = list(d["relays"]) + ["none"] * (3 - len(d["relays"]))
+        al = list(d["auction"]["all"]) + [False] * (3 - len(d["auction"]["all"]))
+        pr = list(d["auction"]["providers"]) + [False] * (3 - len(d["auction"]["providers"]))
+        d["relays"] = [relays[perm[i]] for i in range(3)]
+        d["auction"] = {"kind": d["auction"]["kind"], "all": [al[perm[i]] for i in range(3)],
+                        "providers": [pr[perm[i]] for i in range(3)]}
+        duties.append(d)
+    return {"sc": sc, "salt": rnd.randrange(1, 1000000), "cfg": dict(s["cfg"]), "duties": duties}
+
+
 def scenarios(tier):
     rnd = random.Random(vf.seed() * 7919 + 5)
     main = vf.tlc_scenarios(PID, "Scen_Proposer", "Scen_Proposer.cfg", exhaustive=True, name="scen", timeout=900)
     r3 = vf.tlc_scenarios(PID, "Scen_Proposer", "Scen_Proposer_r3.cfg", exhaustive=True, name="scen-r3", timeout=900)
-    for s in main:
-        s["relays"] = list(s["relays"]) + ["none"]
-        s["auction"]["all"] = list(s["auction"]["all"]) + [False]
-        s["auction"]["providers"] = list(s["auction"]["providers"]) + [False]
-    total = len(main) + len(r3)
+    # histories: one service instance, two duties (thorough: also three)
+    h2 = vf.tlc_scenarios(PID, "Scen_Proposer", "Scen_Proposer_hist.cfg", exhaustive=True, name="scen-hist", timeout=900)
+    h3 = []
+    if tier == "thorough":
+        h3 = vf.tlc_scenarios(PID, "Scen_Proposer", "Scen_Proposer_hist3.cfg", exhaustive=True, name="scen-hist3",
+                              timeout=1800, heap="6g")
+    total = len(main) + len(r3) + len(h2) + len(h3)
     if tier == "quick":
         main = _sample(rnd, main, 2400)
         r3 = _sample(rnd, r3, 1200)
+        h2 = _sample(rnd, h2, 800)
+    else:
+        h3 = _sample(rnd, h3, 3000)
     out = []
-    for s in main + r3:
-        s = dict(s)
-        # widen the values the model keeps small: slot, validator index, token salt; relays are renumbered
-        s["slot"] = rnd.randrange(64, 20000000)
-        s["v"] = rnd.randrange(1, 1500000)
-        s["salt"] = rnd.randrange(1, 1000000)
-        perm = [0, 1, 2]
-        rnd.shuffle(perm)
-        s["relays"] = [s["relays"][perm[i]] for i in range(3)]
-        s["auction"] = {"kind": s["auction"]["kind"],
-                        "all": [s["auction"]["all"][perm[i]] for i in range(3)],
-                        "providers": [s["auction"]["providers"][perm[i]] for i in range(3)]}
-        s["sc"] = len(out) + 1
-        out.append(s)
-    vf.log("scenarios: %d of the %d terminal paths TLC enumerated" % (len(out), total))
+    # histories first: a hung Propose costs the driver its watchdog time, the sooner it starts the better
+    for s in h2 + h3 + main + r3:
+        out.append(_widen(rnd, s, len(out) + 1))
+    vf.log("scenarios: %d of the %d terminal paths TLC enumerated (%d histories of 2 duties, %d of 3 duties on one "
+           "service instance)" % (len(out), total, len(h2), len(h3)))
     return out
 
 
@@ -109,6 +191,8 @@ def observations():
            "%d goroutine(s) left in unblindProposal after the run (C20); crashes inside scenarios: %d; fallback cancels: %d" % (
                len(crashes), "; ".join(crashes), obs.get("goroutines_left_in_unblindProposal", -1),
                len(obs.get("crashes_in_scenarios", [])), obs.get("fallback_cancels", -1)))
+    if obs.get("hung"):
+        vf.log("the driver's watchdog recorded %d Propose call(s) that did not return (Hung)" % obs["hung"])
 
 
 def run(tier):
@@ -123,16 +207,23 @@ def run(tier):
         "relay will reveal a block (production job contexts have no deadline: property C20)",
     ]
     v.add_mc(vf.tlc_exhaustive(PID, "Proposer", "MC_Proposer.cfg"))
+    # every duty of every history terminates (liveness under weak fairness) - smaller constants
+    v.add_mc(vf.tlc_exhaustive(PID, "Proposer", "MC_Proposer_live.cfg"))
     if tier == "thorough":
-        v.add_mc(vf.tlc_exhaustive(PID, "Proposer", "MC_Proposer_big.cfg", coverage=True, timeout=1800))
+        v.add_mc(vf.tlc_exhaustive(PID, "Proposer", "MC_Proposer_big.cfg", timeout=2400))
+        v.add_mc(vf.tlc_exhaustive(PID, "Proposer", "MC_Proposer_live_big.cfg", timeout=1800))
     sc = scenarios(tier)
     vf.conformance(v, sc, driver, "Trace_Proposer", "Trace_Proposer.cfg", sig_of, nontrivial,
                    chunk=2500 if tier == "thorough" else None)
     observations()
-    v.coverage["rule"] = ("terminal paths of Proposer.tla's design enumerated exhaustively by TLC (every version x full/blinded x "
-                          "proposal slot offset x outcome of each step x relay scripts), all of them (thorough) or a seeded "
-                          "stratified sample (quick) replayed on the real proposer service; non-trivial = something was signed, "
-                          "or a proposal for another slot was obtained, or graffiti/auction failed; distinct by scenario")
+    v.coverage["rule"] = ("terminal paths of Proposer.tla's design enumerated exhaustively by TLC: single duties (every version x "
+                          "full/blinded x proposal slot offset x outcome of each step x relay scripts) and histories of 2 (thorough: "
+                          "also 3) consecutive duties on ONE service instance (every failure class of the earlier duty incl. graffiti "
+                          "provider error, {{CLIENT}} template with failing NodeClient, auction, fetch, wrong slot, sign, unblind, "
+                          "submit x reduced later duty); all of them (thorough; 3-duty histories sampled) or a seeded stratified "
+                          "sample (quick) replayed on the real proposer service, each Propose under a watchdog; one evaluation = one "
+                          "history; non-trivial = in some duty something was signed, or a proposal for another slot was obtained, "
+                          "or graffiti/node client/auction failed; distinct by scenario")
     return v.finish()
 
 
